@@ -125,14 +125,16 @@ def prefixRegs (pfx : Str) (uri : StrSpan) : List Reg :=
   | .error _ => []
   | .ok u => if reservedDecl pfx u then [] else [.pfx pfx, .ns u]
 
-/-- One arm of the `match token` of `_parse`. -/
+/-- One arm of the `match token` of `_parse` (a name refused by `check_qname` registers nothing). -/
 def Builder.stepRegs (b : Builder) : Token → List Reg
   | .attribute pfx loc value _ =>
-    if pfx.text == ['x', 'm', 'l', 'n', 's'] then prefixRegs loc.text value
+    if pfx.bareColon then []
+    else if pfx.text == ['x', 'm', 'l', 'n', 's'] then prefixRegs loc.text value
     else if pfx.text.isEmpty && loc.text == ['x', 'm', 'l', 'n', 's'] then prefixRegs [] value
     else []
   | .elementEnd .open _ => b.openRegs
-  | .elementEnd (.close pfx loc) _ => elementNameRegs b.env b.nsStack pfx.text loc.text
+  | .elementEnd (.close pfx loc) _ =>
+    if pfx.bareColon then [] else elementNameRegs b.env b.nsStack pfx.text loc.text
   | .elementEnd .empty _ => b.openRegs
   -- the target `xml` is refused before `DocumentBuilder::processing_instruction` is called
   | .pi target _ _ => if isReservedPiTarget target.text then [] else [.name target.text Env.noNamespace]
